@@ -313,7 +313,9 @@ void after_op(Case& c, const std::vector<std::string>& inj_list, bool timed) {
     std::string ps = std::to_string(p);
     bool choke_inj = has_inj("K:" + ps);
     if (choke_inj) { a.dun = false; a.dq = false; }      // the peer's CHOKE takes the connection out of the queue first
-    bool was = a.dint || has_inj_prefix("W:");   // update_interested raises the flag of every connection first
+    bool sent_int = false;     // an INTERESTED written in this step: the flag was up at some point of the step
+    for (auto& x : sent) if (x == "I:" + ps) sent_int = true;
+    bool was = a.dint || has_inj_prefix("W:") || sent_int;   // update_interested raises the flag of every connection first
     // the connection leaves the download choke queue without a CHOKE from the peer only through the interest drop
     // (possibly right after an own unchoke that raised the flag: queued+choked -> unchoked -> nothing to ask -> dropped)
     bool li = !b.dint && !b.dq && (was || (a.dq && !choke_inj));
